@@ -10,6 +10,7 @@ import SSEPyVerif.Proofs.Schemes.SSE2
 import SSEPyVerif.Proofs.Schemes.PiPtr
 import SSEPyVerif.Proofs.Schemes.ANSS16
 import SSEPyVerif.Proofs.Schemes.CT14
+import SSEPyVerif.Proofs.Schemes.SSE1
 namespace SSEPy.C02
 open SSEPy.Sch SSEPy.Sch.Chain
 
@@ -50,6 +51,11 @@ theorem CT14.search_absent_empty (cfg : CT14Cfg) (lv : Leaves) (HT : List Table)
   | succ i ih =>
     obtain ⟨l, hl, hnone⟩ := hfresh i (by omega)
     simp [CT14.searchLevels, hl, hnone, ih (fun j hj => hfresh j (by omega)), bind, Except.bind, pure, Except.pure]
+
+/-- SSE-1: a keyword whose table label is not in the look-up table gets the empty result -/
+theorem SSE1.search_absent_empty (cfg : SSE1Cfg) (lv : Leaves) (edb : SSE1EDB) (gamma eta : Bytes)
+    (hmiss : edb.T.get gamma = none) : SSE1.search cfg lv edb (gamma, eta) = .ok [] := by
+  simp [SSE1.search, hmiss]
 
 /-- SSE-2: a keyword whose first address `π(w ‖ 1)` is not the address of a stored posting gets the empty result -/
 theorem SSE2.search_absent_empty (cfg : SSE2Cfg) (lv : Leaves) (K1 : Bytes) (db : DB) (I : ITable)
